@@ -345,6 +345,19 @@ class C26(Check):
                 want = {404}
             if soft:
                 want = set(want) | {403, 404}
+        if klass in ("outside", "nul"):
+            # conditional requests for a path outside the root: a validator must not be compared (or even computed)
+            # before the root check - neither "*" nor the entity tags of the outside files may change the answer
+            alltags = b", ".join(etag_of(c) for c in OUTSIDE.values())
+            for inm in (b"*", alltags):
+                rc, pc, _, _ = cl.request(app1, [("GET", t1, [("If-None-Match", inm)]), ("HEAD", t1, [("If-None-Match", inm)])])
+                st.ev(2)
+                for r in rc:
+                    if r.code != g.code or r.get("Etag") is not None:
+                        st.violation("conditional-request-outside-root:%d" % r.code,
+                                     "GET/HEAD %r with If-None-Match: %s -> %d (Etag %r), without it %d"
+                                     % (t1, inm[:12], r.code, r.get("Etag"), g.code), dict(cjson, inm=inm.decode()))
+                        return
         got = (g.code, g.body) if g.code == 200 else g.code
         if got not in want:
             st.violation("mapping:%s-answered-%s" % (klass.replace("either:", ""), g.code),
